@@ -45,6 +45,12 @@ M*.example.com,m1
 'txt.example.com,hello from aa,300,,aa
 +*.w.example.com,192.0.2.7,300,,
 Calias.example.com,www.example.com,300,,
+'big.example.com,aaaaaaaaaaaaaaaaaaaaaaaaaaaaaaaaaaaaaaaaaaaaaaaaaaaaaaaaaaaaaaaaaaaaaaaaaaaaaaaaaaaaaaaaaaaaaaaaaaaa,300,,
+'big.example.com,bbbbbbbbbbbbbbbbbbbbbbbbbbbbbbbbbbbbbbbbbbbbbbbbbbbbbbbbbbbbbbbbbbbbbbbbbbbbbbbbbbbbbbbbbbbbbbbbbbbb,300,,
+'big.example.com,cccccccccccccccccccccccccccccccccccccccccccccccccccccccccccccccccccccccccccccccccccccccccccccccccccc,300,,
+'big.example.com,dddddddddddddddddddddddddddddddddddddddddddddddddddddddddddddddddddddddddddddddddddddddddddddddddddd,300,,
+'big.example.com,eeeeeeeeeeeeeeeeeeeeeeeeeeeeeeeeeeeeeeeeeeeeeeeeeeeeeeeeeeeeeeeeeeeeeeeeeeeeeeeeeeeeeeeeeeeeeeeeeeee,300,,
+'big.example.com,ffffffffffffffffffffffffffffffffffffffffffffffffffffffffffffffffffffffffffffffffffffffffffffffffffff,300,,
 `
 
 // ---- recording Stats ---------------------------------------------------------
@@ -158,10 +164,23 @@ type cQuery struct {
 	qtype  uint16
 	client cClient
 	edns   string
+	// qd: "" = one question; "qd2same" = the question twice; "qd2other" = a second question of another type (A,
+	// or AAAA when the first is A); "qd0" = no question at all (name "." and type 0 are what the handler derives).
+	// One handled QUERY is one query, however many questions it carries.
+	qd string
+	// small: advertise a 512-byte buffer in the OPT (with "noedns" nothing is advertised, which means 512 too)
+	small bool
 }
 
 func (q cQuery) id() string {
-	return fmt.Sprintf("%s:%s:%s:%s", strings.TrimSuffix(q.name, "."), typeName(q.qtype), q.client.name, q.edns)
+	s := fmt.Sprintf("%s:%s:%s:%s", strings.TrimSuffix(q.name, "."), typeName(q.qtype), q.client.name, q.edns)
+	if q.qd != "" {
+		s += ":" + q.qd
+	}
+	if q.small {
+		s += ":buf512"
+	}
+	return s
 }
 
 func typeName(t uint16) string {
@@ -190,11 +209,26 @@ func (q cQuery) msg() *dns.Msg {
 	m.SetQuestion(q.name, q.qtype)
 	m.RecursionDesired = false
 	m.Id = 4242
+	switch q.qd {
+	case "qd2same":
+		m.Question = append(m.Question, m.Question[0])
+	case "qd2other":
+		other := dns.Question{Name: q.name, Qtype: dns.TypeA, Qclass: dns.ClassINET}
+		if q.qtype == dns.TypeA {
+			other.Qtype = dns.TypeAAAA
+		}
+		m.Question = append(m.Question, other)
+	case "qd0":
+		m.Question = nil
+	}
 	if q.edns == "noedns" && q.client.ecs == "" {
 		return m
 	}
 	o := &dns.OPT{Hdr: dns.RR_Header{Name: ".", Rrtype: dns.TypeOPT}}
 	o.SetUDPSize(4096)
+	if q.small {
+		o.SetUDPSize(512)
+	}
 	if q.edns == "edns0-do" {
 		o.SetDo()
 	}
@@ -228,13 +262,30 @@ func allCounterQueries() []cQuery {
 					if e == "noedns" && c.ecs != "" {
 						continue // a client subnet needs an OPT: covered by edns0
 					}
-					out = append(out, cQuery{n, t, c, e})
+					out = append(out, cQuery{name: n, qtype: t, client: c, edns: e})
 				}
 			}
 		}
 	}
+	// a response that does not fit the client's buffer (six 100-byte TXT strings) is written truncated: it is
+	// still a composed response that was written, with counters and a log entry owed
+	for _, c := range []cClient{cClients[0], cClients[1]} {
+		out = append(out, cQuery{name: "big.example.com.", qtype: dns.TypeTXT, client: c, edns: "noedns"},
+			cQuery{name: "big.example.com.", qtype: dns.TypeTXT, client: c, edns: "edns0", small: true},
+			cQuery{name: "big.example.com.", qtype: dns.TypeTXT, client: c, edns: "edns0"},
+			cQuery{name: "big.example.com.", qtype: dns.TypeANY, client: c, edns: "noedns"})
+	}
+	// question counts other than one
+	for _, t := range []uint16{dns.TypeA, dns.TypeAAAA, dns.TypeTXT} {
+		for _, qd := range []string{"qd2same", "qd2other"} {
+			out = append(out, cQuery{name: "www.example.com.", qtype: t, client: cClients[1], edns: "noedns", qd: qd},
+				cQuery{name: "nope.example.com.", qtype: t, client: cClients[0], edns: "edns0", qd: qd})
+		}
+	}
+	out = append(out, cQuery{name: ".", qtype: 0, client: cClients[1], edns: "noedns", qd: "qd0"},
+		cQuery{name: ".", qtype: 0, client: cClients[0], edns: "edns0", qd: "qd0"})
 	// failure class: a question name that cannot be packed (label longer than 63 octets)
-	out = append(out, cQuery{strings.Repeat("x", 64) + ".example.com.", dns.TypeA, cClients[1], "noedns"})
+	out = append(out, cQuery{name: strings.Repeat("x", 64) + ".example.com.", qtype: dns.TypeA, client: cClients[1], edns: "noedns"})
 	return out
 }
 
@@ -591,7 +642,7 @@ func runCounters(r *vlib.Run, dir string, be dnsfix.Backend) {
 
 // runExpiry: query, let 1001 virtual seconds pass, query again: exactly DNS_cache.expired, then a hit.
 func runExpiry(r *vlib.Run, be dnsfix.Backend, path string, cs *cStats) {
-	q := cQuery{"mx.example.com.", dns.TypeA, cClients[1], "edns0"}
+	q := cQuery{name: "mx.example.com.", qtype: dns.TypeA, client: cClients[1], edns: "edns0"}
 	type step struct {
 		stage string
 		want  string
